@@ -370,6 +370,22 @@ let hash_line l =
   (* hex of the manifest stream -> siphash *)
   "ok " ^ hexnum_of_n (siphash13 (bytes_of_hex l))
 
+(* ---- run::build orchestration replayed on an observed tape ---- *)
+let build_line l =
+  match words l with
+  | [l0; r; t1; l1; m; t2] ->
+    let ob s = match s with "1" -> Some true | "0" -> Some false | _ -> None in
+    let tp = { tp_load0 = (l0 = "1"); tp_regen = ob r; tp_tasks1 = nat_of_int (int_of_string t1);
+               tp_load1 = (l1 = "1"); tp_main = ob m; tp_tasks2 = nat_of_int (int_of_string t2) } in
+    let bt = build_tape tp in
+    let res = match bt.bt_result with
+      | BOk n -> "ok:" ^ string_of_int (int_of_nat n) | BFailed -> "fail" | BError -> "err" in
+    let mn = match bt.bt_main_on with
+      | None -> "nomain"
+      | Some (g, reuse) -> Printf.sprintf "main:%d:%d" (if g then 1 else 0) (if reuse then 1 else 0) in
+    res ^ " " ^ mn
+  | _ -> "bad"
+
 let suites : (string * (string -> string)) list =
   [ ("canon_impl", canon_impl_line); ("canon", canon_line); ("canon_sem", sem_line);
     ("depfile", depfile_line true); ("depfile_pinned", depfile_line false);
@@ -377,7 +393,7 @@ let suites : (string * (string -> string)) list =
     ("lastline", lastline_line);
     ("taskmsg", taskmsg_line true); ("taskmsg_pinned", taskmsg_line false);
     ("truncate", truncate_line); ("bar", bar_line); ("status", status_line);
-    ("inv", inv_line); ("select", select_line);
+    ("inv", inv_line); ("select", select_line); ("build", build_line);
     ("dbopen", dbopen_line); ("dbwrite", dbwrite_line);
     ("load", load_line); ("world", world_line); ("siphash", hash_line); ("dedup", dedup_line true); ("dedup_pinned", dedup_line false) ]
 
